@@ -152,6 +152,45 @@ def _first_trace_diff(a_path, b_path):
     return None
 
 
+def _net_compare(ref_path, feat_path):
+    """multi-actor programs: default build vs a feature build.  Programs in which the detecting build saw a
+    justified deadlock are not compared (they contain an ask cycle); an unjustified deadlock report is itself a difference."""
+    def split(path):
+        out, cur, name, verdict = {}, [], None, None
+        order = []
+        for l in open(path):
+            l = l.rstrip("\n")
+            if l.startswith("trace "):
+                name, cur, verdict = l, [], None
+            elif l.startswith("#verdict "):
+                verdict = l[len("#verdict "):]
+            elif l == "endtrace":
+                out[name] = (verdict, cur)
+                order.append(name)
+            else:
+                cur.append(l)
+        return out, order
+    A, order = split(ref_path)
+    B, _ = split(feat_path)
+    stats = {"compared": 0, "skipped_justified_deadlock": 0}
+    for name in order:
+        va, la = A[name]
+        if name not in B:
+            return {"trace": name, "default_build": ["present"], "feature_build": ["missing"]}, stats
+        vb, lb = B[name]
+        script = [x[2:] for x in la if x.startswith("# ")]
+        if vb and vb.startswith("violation"):
+            return {"trace": name, "what": vb, "script": script, "feature_build": [x for x in lb if not x.startswith("# ")][-40:]}, stats
+        if vb == "justified-deadlock":
+            stats["skipped_justified_deadlock"] += 1
+            continue
+        stats["compared"] += 1
+        if la != lb:
+            k = next((i for i, (x, y) in enumerate(zip(la, lb)) if x != y), min(len(la), len(lb)))
+            return {"trace": name, "first_differing_line": k, "script": script, "default_build": la[max(0, k - 12):k + 6], "feature_build": lb[max(0, k - 12):k + 6]}, stats
+    return None, stats
+
+
 def featcorr(prop, tier, seed, ctx):
     """the same seeded scripts on harness builds with different rsactor feature sets: every build against the
     one model (step by step), the builds' raw traces against each other (byte for byte), acyclic multi-actor
@@ -180,7 +219,7 @@ def featcorr(prop, tier, seed, ctx):
             raise ctx["Infra"](f"corr ({tag}) failed rc={rc}:\n" + err[-2000:])
         nd = os.path.join(B, f"netdump_{prop}_{tag}.txt")
         if compare:
-            rc, out, err = ctx["sh"]([os.path.join(bindir, "netdump"), "--seed", str(seed), "--n", str(max(40, n // 4)), "--out", nd], timeout=3000)
+            rc, out, err = ctx["sh"]([os.path.join(bindir, "netdump"), "--seed", str(seed), "--n", str(max(40, n // 4)), "--general", str(max(80, n // 2)), "--out", nd], timeout=3000)
             if rc != 0:
                 raise ctx["Infra"](f"netdump ({tag}) failed rc={rc}:\n" + err[-2000:])
         return json.load(open(rep)), tr, nd
@@ -206,8 +245,9 @@ def featcorr(prop, tier, seed, ctx):
             if d is not None:
                 res["violations"].append(("feature-trace-difference", f"the build with features {tag} and the default build behave differently on script {d['trace']}",
                                           {"failing_input": d, "features": fs, "seed": seed}))
-            d2 = _first_trace_diff(ref[2], nd)
-            ev["acyclic_multi_actor_programs_equal"] = d2 is None
+            d2, nst = _net_compare(ref[2], nd)
+            ev["multi_actor_programs_without_ask_cycle_equal"] = d2 is None
+            ev["multi_actor_programs"] = nst
             if d2 is not None:
                 res["violations"].append(("feature-trace-difference", f"multi-actor program without ask cycle: the build with features {tag} and the default build behave differently on {d2['trace']}",
                                           {"failing_input": d2, "features": fs, "seed": seed}))
